@@ -26,3 +26,14 @@ pub fn shs_half_angle(d: f64) -> f64 { let s = (0.5 * d).sin(); s * s }
 pub fn shs_one_minus_cos(d: f64) -> f64 { 0.5 * (1.0 - d.cos()) }
 pub fn polar_radius_half_angle(lat: f64) -> f64 { 6.0_f64.sqrt() * (0.5 * lat + std::f64::consts::FRAC_PI_4).cos() }
 pub fn polar_radius_one_minus_sin(lat: f64) -> f64 { (3.0 * (1.0 - lat.sin())).sqrt() }
+
+/// angular distance twins: atan2 of the cross and dot products, and the arc cosine of the dot product
+pub fn ang_dist_atan2(lat1: f64, lat2: f64, dlon: f64) -> f64 {
+  let (s1, c1) = lat1.sin_cos(); let (s2, c2) = lat2.sin_cos(); let (sd, cd) = dlon.sin_cos();
+  let x = c2 * sd; let y = c1 * s2 - s1 * c2 * cd; let z = s1 * s2 + c1 * c2 * cd;
+  (x * x + y * y).sqrt().atan2(z)
+}
+pub fn ang_dist_acos(lat1: f64, lat2: f64, dlon: f64) -> f64 {
+  let (s1, c1) = lat1.sin_cos(); let (s2, c2) = lat2.sin_cos();
+  (s1 * s2 + c1 * c2 * dlon.cos()).acos()
+}
